@@ -36,6 +36,9 @@ enum Th {
     NotStarted,
     Parked(&'static str, PKind),
     Running,
+    /// made no progress for a while without reaching a schedule point: presumably blocked on a
+    /// lock the controller does not model, held by a parked thread; others may run meanwhile
+    Stuck,
     Finished,
 }
 
@@ -108,6 +111,8 @@ impl Ctl {
         if enabled.is_empty() {
             if st.status.iter().all(|t| *t == Th::Finished) {
                 st.done = true;
+            } else if st.status.iter().any(|t| *t == Th::Stuck) {
+                // wait for the blocked thread to come back to a schedule point
             } else {
                 st.abort = Some("deadlock: no enabled thread while some thread is unfinished".into());
             }
@@ -137,6 +142,7 @@ impl Ctl {
                 Th::Parked(n, _) => *n,
                 Th::Finished => "finished",
                 Th::Running => "running",
+                Th::Stuck => "blocked-outside-schedule-points",
                 Th::NotStarted => "not-started",
             })
             .collect();
@@ -164,8 +170,11 @@ impl Ctl {
             drop(st);
             std::panic::resume_unwind(Box::new(AbortExec));
         }
+        let was_running = st.running == Some(me) || st.running.is_none();
         st.status[me] = Th::Parked(name, kind);
-        Ctl::decide(&mut st, Some(me));
+        if was_running {
+            Ctl::decide(&mut st, Some(me));
+        }
         self.cv.notify_all();
         loop {
             if st.abort.is_some() {
@@ -208,7 +217,9 @@ impl Ctl {
             st.locks.remove(l);
         }
         if st.abort.is_none() {
-            Ctl::decide(&mut st, Some(me));
+            if st.running == Some(me) || st.running.is_none() {
+                Ctl::decide(&mut st, Some(me));
+            }
         } else if st.status.iter().all(|t| *t == Th::Finished) {
             st.done = true;
         }
@@ -536,9 +547,25 @@ pub fn run(scn: &Scenario, schedule: Option<&[u8]>, order: Option<&[usize]>) -> 
             Ctl::decide(&mut st, None);
             ctl.cv.notify_all();
             let t0 = Instant::now();
+            let mut last_points = st.points;
+            let mut last_progress = Instant::now();
             while !st.done && !(st.abort.is_some() && st.status.iter().all(|t| *t == Th::Finished)) {
-                let (g, _) = ctl.cv.wait_timeout(st, Duration::from_millis(200)).unwrap();
+                let (g, _) = ctl.cv.wait_timeout(st, Duration::from_millis(100)).unwrap();
                 st = g;
+                if st.points != last_points || st.status.iter().all(|t| *t == Th::Finished) {
+                    last_points = st.points;
+                    last_progress = Instant::now();
+                } else if last_progress.elapsed() > Duration::from_millis(2500) && st.abort.is_none() {
+                    if let Some(r) = st.running {
+                        if st.status[r] == Th::Running {
+                            st.status[r] = Th::Stuck;
+                            st.running = None;
+                            Ctl::decide(&mut st, None);
+                            ctl.cv.notify_all();
+                            last_progress = Instant::now();
+                        }
+                    }
+                }
                 if t0.elapsed() > Duration::from_secs(20) {
                     let at: Vec<_> = st.status.clone();
                     mc_kit::machinery_error(&format!(
